@@ -23,7 +23,8 @@ Record strat := mkStrat {
 Definition S0 := mkStrat [] [] [] [].
 
 Inductive mode := Manual | Sync | Async.
-Inductive perturb := PNone | PDelete (i : N) | PDup (i : N) | PSwap (i : N) | PReplay (i : N).
+Inductive perturb := PNone | PDelete (i : N) | PDup (i : N) | PSwap (i : N) | PReplay (i : N)
+  | PWindow (i n : N).   (* the [n] ticks from position [i] are replayed after the stream *)
 
 (** observed audit tick: sequence, Process (true) / FeedEnded, carried event == fed event,
     is_terminal(), errors non-empty, outputs *)
@@ -179,6 +180,7 @@ Definition perturb_list {A} (p : perturb) (l : list A) : list A :=
                | _ => l
                end
   | PReplay i => match nth_error l (N.to_nat i) with Some t => l ++ [t] | None => l end
+  | PWindow i n => l ++ firstn (N.to_nat n) (skipn (N.to_nat i) l)
   end.
 Definition is_pnone (p : perturb) : bool := match p with PNone => true | _ => false end.
 
@@ -359,23 +361,23 @@ Definition orders_related (a b : omap) : bool :=
 Definition no_markers (a : omap) : bool :=
   forallb (fun p => match o_st (snd p) with Open _ => true | _ => false end) a.
 
+(** engine observation [x] and replica observation [o] agree: trading state, orders modulo
+    in-flight markers, and every PartialEq comparison made by the harness *)
+Definition eng_rep_ok (x : eobs) (o : robs) : bool :=
+  Bool.eqb (eo_trading x) (ro_trading o) && orders_related (eo_orders x) (ro_orders o) &&
+  match ro_cmp o with Some c => cmp_all c | None => false end.
+
+Definition sim_tick (snap_markers_free : bool) (te : tobs * option eobs) (o : robs) : bool :=
+  N.eqb (ro_fseq o) (t_seq (fst te)) &&
+  (if t_proc (fst te) then ro_ok o && negb (ro_unchanged o) else ro_ok o) &&
+  (if snap_markers_free then no_markers (ro_orders o) else true) &&
+  match snd te with Some x => eng_rep_ok x o | None => true end.
+
 (** unperturbed stream: after every tick the replica equals the engine *)
 Definition sim_ok (snap_markers_free : bool) (ticks : list tobs) (engs : list (option eobs))
                   (reps : list robs) : bool :=
   Nat.eqb (length ticks) (length reps) &&
-  list_match
-    (fun (te : tobs * option eobs) (o : robs) =>
-       let (t, e) := te in
-       N.eqb (ro_fseq o) (t_seq t) &&
-       (if t_proc t then ro_ok o && negb (ro_unchanged o) else ro_ok o) &&
-       (if snap_markers_free then no_markers (ro_orders o) else true) &&
-       match e with
-       | Some x =>
-           Bool.eqb (eo_trading x) (ro_trading o) && orders_related (eo_orders x) (ro_orders o) &&
-           match ro_cmp o with Some c => cmp_all c | None => false end
-       | None => true
-       end)
-    (combine ticks engs) reps.
+  list_match (sim_tick snap_markers_free) (combine ticks engs) reps.
 
 Definition join_opt {A} (o : option (option A)) : option A :=
   match o with Some x => x | None => None end.
@@ -397,18 +399,14 @@ Definition prop_b (c : case) : bool :=
       (if is_pnone p && wf_case c then
          sim_ok (no_markers snap_orders) ticks engs reps &&
          ro_ok whole &&
-         match ro_cmp whole,
-               match md with
-               | Manual => join_opt (find (fun e => match e with
-                                                    | Some x => N.eqb (eo_seq x) (ro_seq whole + 1)
-                                                    | None => false end) engs)
-               | _ => last_eng engs
-               end with
-         | Some x, Some e =>
-             cmp_all x && Bool.eqb (eo_trading e) (ro_trading whole) &&
-             orders_related (eo_orders e) (ro_orders whole)
-         | Some x, None => cmp_all x
-         | None, _ => false
+         match (match md with
+                | Manual => join_opt (find (fun e => match e with
+                                                     | Some x => N.eqb (eo_seq x) (ro_seq whole + 1)
+                                                     | None => false end) engs)
+                | _ => last_eng engs
+                end) with
+         | Some e => eng_rep_ok e whole
+         | None => match ro_cmp whole with Some x => cmp_all x | None => false end
          end
        else true)
   end.
